@@ -280,6 +280,16 @@ impl<A: Cx> World<A> {
 
     /// perform `op`, catching panics of the code under test
     pub fn exec(&mut self, op: &Value) -> Value {
+        // a call marked `nocanon` is observed without the structural-equality part of the view
+        let canon_was = if op.get("nocanon").is_some() { Some(CANON.swap(false, std::sync::atomic::Ordering::Relaxed)) } else { None };
+        let r = self.exec_caught(op);
+        if let Some(c) = canon_was {
+            CANON.store(c, std::sync::atomic::Ordering::Relaxed);
+        }
+        r
+    }
+
+    fn exec_caught(&mut self, op: &Value) -> Value {
         match catch_unwind(AssertUnwindSafe(|| self.exec_inner(op))) {
             Ok(v) => v,
             Err(e) => {
